@@ -306,8 +306,21 @@ class Adapter:
         self.repo = repo
         self.tmp = tempfile.mkdtemp(prefix="rv_c10_")
         self.sched = FakeScheduler(self.tmp)
+        # fake cloud: None = every run has finished as soon as it is polled (the fake of the property text);
+        # a set = only these job numbers have finished, the others are still in flight ("waves" histories)
+        self.finished = set() if info.get("waves") else None
         self.stack = contextlib.ExitStack()
         self.ex = None
+
+    def fin(self, cloud_id):
+        """Has the run with this cloud-side id finished?"""
+        if self.finished is None:
+            return True
+        import re
+        return int(re.findall(r"\d+", str(cloud_id))[0]) in self.finished
+
+    def complete(self, n):
+        self.finished.add(n)
 
     def patch(self, obj, name, val):
         self.stack.enter_context(mock.patch.object(obj, name, val))
@@ -386,7 +399,8 @@ class DockerAd(Adapter):
 
         def iter_job_status(prefix, id2job):
             for jid in id2job:
-                yield {"jobId": jid, "status": m.SUCCEEDED, "logs": ""}
+                if self.fin(jid):      # a container that is still running is not listed as done
+                    yield {"jobId": jid, "status": m.SUCCEEDED, "logs": ""}
         self.patch(m, "iter_job_status", iter_job_status)
         self.ex = m.DockerExecutor("d", scheduler=self.sched, config=section(
             {"image": "img", "scratch": self.tmp, "job_monitor_interval": 0, "code_package": False}))
@@ -402,7 +416,7 @@ class BatchAd(Adapter):
 
         def iter_batch_job_status(job_ids, pending_truncate=10, aws_region=None):
             for jid in job_ids:
-                yield {"jobId": jid, "status": m.SUCCEEDED}
+                yield {"jobId": jid, "status": m.SUCCEEDED if self.fin(jid) else "RUNNING"}
         self.patch(m, "iter_batch_job_status", iter_batch_job_status)
         self.patch(m, "get_job_log_stream", lambda job, aws_region=None: None)
         self.patch(m, "get_task_command", lambda task, args, kwargs: "cmd")
@@ -414,10 +428,11 @@ class BatchAd(Adapter):
 
 
 class FakeK8sJob:
-    def __init__(self, name):
+    def __init__(self, name, done=True):
         self.metadata = SimpleNamespace(name=name, uid="uid-" + name)
         self.spec = SimpleNamespace(parallelism=1)
-        self.status = SimpleNamespace(succeeded=1, failed=None, conditions=None, completed_indexes=None)
+        self.status = SimpleNamespace(succeeded=1 if done else None, failed=None, conditions=None,
+                                      completed_indexes=None)
 
 
 class K8sAd(Adapter):
@@ -435,7 +450,7 @@ class K8sAd(Adapter):
         self.patch(m.k8s_utils, "create_namespace", lambda *a, **k: None)
         self.patch(m.k8s_utils, "delete_job", lambda *a, **k: None)
         self.patch(m, "submit_task", lambda client, image, ns, prefix, job, task, **k: FakeK8sJob(f"k{job.n}"))
-        self.patch(m, "k8s_describe_jobs", lambda client, names, namespace=None: [FakeK8sJob(n) for n in names])
+        self.patch(m, "k8s_describe_jobs", lambda client, names, namespace=None: [FakeK8sJob(n, self.fin(n)) for n in names])
         self.patch(m, "get_k8s_job_pods", lambda core, name: [])
         self.patch(m, "get_task_command", lambda task, args, kwargs: "cmd")
         self.patch(m, "submit_command", lambda client, image, ns, prefix, job, command, **k: FakeK8sJob(f"k{job.n}"))
@@ -462,7 +477,8 @@ class GcpAd(Adapter):
         self.patch(m.gcp_utils, "batch_submit", batch_submit)
         State = m.TaskStatus.State
         self.patch(m.gcp_utils, "get_task",
-                   lambda client=None, task_name=None: SimpleNamespace(name=task_name, status=SimpleNamespace(state=State.SUCCEEDED)))
+                   lambda client=None, task_name=None: SimpleNamespace(
+                       name=task_name, status=SimpleNamespace(state=State.SUCCEEDED if self.fin(task_name) else State.RUNNING)))
         self.ex = m.GCPBatchExecutor("g", scheduler=self.sched, config=section(
             {"image": "img", "project": "p", "region": "r", "gcs_scratch": self.tmp + "/gcs",
              "job_monitor_interval": 0, "code_package": False, **self.arr_cfg(), "debug_scratch": self.tmp + "/dbg"}))
@@ -477,7 +493,7 @@ class GlueAd(Adapter):
 
         def glue_describe_jobs(ids, glue_job_name=None, aws_region=None):
             for i in ids:
-                yield {"Id": i, "JobRunState": "SUCCEEDED"}
+                yield {"Id": i, "JobRunState": "SUCCEEDED" if self.fin(i) else "RUNNING"}
         self.patch(m, "glue_describe_jobs", glue_describe_jobs)
         self.ex = m.AWSGlueExecutor("gl", scheduler=self.sched, config=section(
             {"s3_scratch": self.tmp + "/s3", "aws_region": "us-west-2", "role": "r", "job_monitor_interval": 0,
